@@ -32,9 +32,17 @@ func main() {
 		plug := fs.String("plugin", "", "path of the plugin binary")
 		out := fs.String("out", "", "scratch directory")
 		fs.Parse(os.Args[2:])
+		what := fs.Arg(0)
 		var all []*Observation
-		for _, u := range unsupported_() {
-			all = append(all, observe(u, *plug, *out)...)
+		if what == "" || what == "unsupported" {
+			for _, u := range unsupported_() {
+				all = append(all, observe(u, *plug, *out)...)
+			}
+		}
+		if what == "" || what == "selection" {
+			for _, sel := range selections() {
+				all = append(all, observeSelection(sel, *plug, *out))
+			}
 		}
 		b, _ := json.Marshal(all)
 		fmt.Println(string(b))
